@@ -234,6 +234,33 @@ Section Proofs.
     - destruct (text_eq_dec t1 t1) as [_|n2]; [|congruence]. intro H. inversion H. congruence.
   Qed.
 
+  (* where a binding of the store after a call comes from (no hypothesis on kg) *)
+  Lemma csl_origin : forall u (s : store key vec) k v,
+    sget (csl s u (map emb u)) k = Some v ->
+    sget s k = Some v \/ exists t, In t u /\ k = kg t /\ v = emb t.
+  Proof.
+    induction u as [|a u IH]; intros s k v H.
+    - left. exact H.
+    - simpl map in H. rewrite csl_cons in H. apply IH in H. destruct H as [H|[t [Hin [Hk Hv]]]].
+      + unfold store_set in H. simpl in H. destruct (key_eq_dec k (kg a)) as [e|_].
+        * right. exists a. inversion H. split; [left; reflexivity|split; [exact e|reflexivity]].
+        * left. exact H.
+      + right. exists t. split; [right; exact Hin|split; assumption].
+  Qed.
+
+  Lemma wrapper_store_origin : forall (s : store key vec) texts k v,
+    sget (w_store (wrapper text_eq_dec key_eq_dec kg true (map emb) s texts)) k = Some v ->
+    sget s k = Some v \/ exists t, In t texts /\ k = kg t /\ v = emb t.
+  Proof.
+    intros s texts k v H. unfold wrapper in H.
+    pose proof (wrap_begin_unc s texts) as Hu.
+    destruct (wrap_begin text_eq_dec key_eq_dec kg s texts) as [c u]. simpl snd in Hu.
+    unfold wrap_end, w_store in H. simpl in H.
+    destruct u as [|a u]; [left; exact H|].
+    apply csl_origin in H. destruct H as [H|[t [Hin [Hk Hv]]]]; [left; exact H|].
+    right. exists t. split; [apply Hu; exact Hin|split; assumption].
+  Qed.
+
   (* the two halves of one call run on DIFFERENT consistent stores: whatever other tasks
      wrote into the (shared) store while the model call was awaited *)
   Theorem wrapper_interleaved : inj_on -> forall s1 s2 texts, Forall P texts ->
@@ -312,6 +339,109 @@ Section MultiProofs.
   Qed.
 End MultiProofs.
 
+(* ---- isolation from the KEYS alone ---------------------------------------------------------
+   No assumption on which configurations share a store: it is enough that, inside one store,
+   equal keys imply equal vectors. *)
+Section MultiSound.
+  Variables text key vec : Type.
+  Variable text_eq_dec : forall a b : text, {a = b} + {a <> b}.
+  Variable key_eq_dec : forall a b : key, {a = b} + {a <> b}.
+  Variable P : text -> Prop.
+  Variable indexes : list (index text key vec).
+
+  Definition key_sound : Prop :=
+    forall a b, In a indexes -> In b indexes -> ix_sid a = ix_sid b ->
+      forall t t', P t -> P t' -> ix_kg a t = ix_kg b t' -> ix_emb a t = ix_emb b t'.
+
+  Lemma mcall_ok_sound : all_inj text key vec P indexes -> key_sound -> forall S a texts,
+    stores_ok text key vec key_eq_dec P indexes S -> In a indexes -> Forall P texts ->
+    fst (mcall text_eq_dec key_eq_dec S a texts) = map (fun t => Some (ix_emb a t)) texts /\
+    stores_ok text key vec key_eq_dec P indexes (snd (mcall text_eq_dec key_eq_dec S a texts)).
+  Proof.
+    intros Hinj Hks S a texts HS Ha HP. unfold mcall. simpl.
+    destruct (wrapper_ok text key vec text_eq_dec key_eq_dec (ix_kg a) (ix_emb a) P (Hinj a Ha) true
+                (S (ix_sid a)) texts HP (HS a Ha)) as [Hr _].
+    split; [exact Hr|].
+    intros b Hb. unfold sset. destruct (ix_sid b =? ix_sid a) eqn:E; [|apply HS; exact Hb].
+    apply Nat.eqb_eq in E. intros t v Pt Hg.
+    apply wrapper_store_origin in Hg. destruct Hg as [Hg|[t' [Hin [Hk Hv]]]].
+    - rewrite <- E in Hg. apply (HS b Hb t v Pt Hg).
+    - subst v. symmetry. apply (Hks b a Hb Ha E t t' Pt); [|exact Hk].
+      rewrite Forall_forall in HP. apply HP. exact Hin.
+  Qed.
+
+  Theorem multi_correct_sound : all_inj text key vec P indexes -> key_sound -> forall history a texts,
+    Forall (fun c => In (fst c) indexes /\ Forall P (snd c)) history -> In a indexes -> Forall P texts ->
+    fst (mcall text_eq_dec key_eq_dec (mrun text_eq_dec key_eq_dec no_stores history) a texts)
+    = map (fun t => Some (ix_emb a t)) texts.
+  Proof.
+    intros Hinj Hks history a texts Hh Ha HP.
+    assert (Hrun : forall calls S, stores_ok text key vec key_eq_dec P indexes S ->
+              Forall (fun c => In (fst c) indexes /\ Forall P (snd c)) calls ->
+              stores_ok text key vec key_eq_dec P indexes (mrun text_eq_dec key_eq_dec S calls)).
+    { induction calls as [|[x tx] calls IH]; intros S HS Hall; simpl; [exact HS|].
+      inversion Hall as [|y l [Hx HPx] Hrest]; subst. simpl in Hx, HPx.
+      apply IH; [|exact Hrest]. apply mcall_ok_sound; assumption. }
+    apply mcall_ok_sound; try assumption. apply Hrun; [|exact Hh].
+    intros b _. apply consistent_nil.
+  Qed.
+End MultiSound.
+
+(* ---- keys made of (model identity, text) ------------------------------------------------------
+   The key generator is applied to the text together with the identity of the index's embedding
+   model (`incl = true`: the current source) or to the text alone (`incl = false`: before the
+   fix).  kx_gen is the generator on that composite. *)
+Section Keyed.
+  Variables mid text key vec : Type.
+  Variable text_eq_dec : forall a b : text, {a = b} + {a <> b}.
+  Variable key_eq_dec : forall a b : key, {a = b} + {a <> b}.
+  Variable P : text -> Prop.
+
+  Record kindex := mkKIndex {
+    kx_mid : mid;                              (* (embedding_engine, embedding_model) *)
+    kx_gen : option mid * text -> key;         (* key generator on what the cache hands it *)
+    kx_emb : text -> vec;
+    kx_sid : nat
+  }.
+
+  Definition kx_index (incl : bool) (k : kindex) : index text key vec :=
+    mkIndex (fun t => kx_gen k (if incl then Some (kx_mid k) else None, t)) (kx_emb k) (kx_sid k).
+
+  Variable ks : list kindex.
+
+  (* the key generators in play are injective on (model identity, text), jointly inside a store *)
+  Definition pair_inj : Prop :=
+    forall a b, In a ks -> In b ks -> kx_sid a = kx_sid b ->
+      forall t t', P t -> P t' -> kx_gen a (Some (kx_mid a), t) = kx_gen b (Some (kx_mid b), t') ->
+      kx_mid a = kx_mid b /\ t = t'.
+
+  (* the model identity determines the model *)
+  Definition mid_model : Prop :=
+    forall a b, In a ks -> In b ks -> kx_mid a = kx_mid b -> forall t, kx_emb a t = kx_emb b t.
+
+  Theorem keyed_correct : pair_inj -> mid_model -> forall history a texts,
+    Forall (fun c => In (fst c) ks /\ Forall P (snd c)) history -> In a ks -> Forall P texts ->
+    fst (mcall text_eq_dec key_eq_dec
+           (mrun text_eq_dec key_eq_dec no_stores (map (fun c => (kx_index true (fst c), snd c)) history))
+           (kx_index true a) texts)
+    = map (fun t => Some (kx_emb a t)) texts.
+  Proof.
+    intros Hpi Hmm history a texts Hh Ha HP.
+    apply (multi_correct_sound text key vec text_eq_dec key_eq_dec P (map (kx_index true) ks)).
+    - intros x Hx. apply in_map_iff in Hx. destruct Hx as [k [<- Hk]].
+      intros t t' Pt Pt' E. simpl in E. destruct (Hpi k k Hk Hk eq_refl t t' Pt Pt' E). assumption.
+    - intros x y Hx Hy Hs t t' Pt Pt' E.
+      apply in_map_iff in Hx. destruct Hx as [k [<- Hk]].
+      apply in_map_iff in Hy. destruct Hy as [k' [<- Hk']]. simpl in *.
+      destruct (Hpi k k' Hk Hk' Hs t t' Pt Pt' E) as [Hm ->]. apply Hmm; assumption.
+    - rewrite Forall_forall in *. intros [x tx] Hin. apply in_map_iff in Hin.
+      destruct Hin as [[k tk] [E Hin]]. inversion E; subst. simpl.
+      destruct (Hh _ Hin) as [H1 H2]. simpl in *. split; [apply in_map; exact H1|exact H2].
+    - apply in_map. exact Ha.
+    - exact HP.
+  Qed.
+End Keyed.
+
 (* without the assumption: two indexes with one store, one key for the text and different
    models - the second gets the first model's vector *)
 Theorem multi_shared_store_refuted : forall (text key vec : Type)
@@ -333,6 +463,25 @@ Proof.
     destruct (ted t t) as [_|n]; [|congruence]. simpl.
     destruct (ted t t) as [_|n]; [|congruence]. reflexivity. }
   split; [exact H|]. rewrite H. simpl. intro E. inversion E. congruence.
+Qed.
+
+(* the keying BEFORE the fix (text alone): two indexes that share a store and a key generator and
+   use different models - the second index is served the first model's vector *)
+Theorem keyed_text_only_refuted : forall (mid text key vec : Type)
+    (text_eq_dec : forall a b : text, {a = b} + {a <> b})
+    (key_eq_dec : forall a b : key, {a = b} + {a <> b})
+    (a b : kindex mid text key vec) (t : text),
+  kx_sid mid text key vec a = kx_sid mid text key vec b ->
+  kx_gen mid text key vec a (None, t) = kx_gen mid text key vec b (None, t) ->
+  kx_emb mid text key vec a t <> kx_emb mid text key vec b t ->
+  fst (mcall text_eq_dec key_eq_dec
+         (mrun text_eq_dec key_eq_dec no_stores [(kx_index mid text key vec false a, [t])])
+         (kx_index mid text key vec false b) [t])
+  <> map (fun t => Some (kx_emb mid text key vec b t)) [t].
+Proof.
+  intros mid text key vec ted ked a b t Hs Hk Hne.
+  apply (multi_shared_store_refuted text key vec ted ked
+           (kx_index mid text key vec false a) (kx_index mid text key vec false b) t); assumption.
 Qed.
 
 Arguments inj_on {text key} kg P.
